@@ -1,3 +1,4 @@
+import Proofs.Tie.Api
 import Proofs.Setters
 /-!
 # C12 — setters and accessors obey last-write-wins and keep derived flags in step
@@ -79,5 +80,21 @@ example :
     let ops : List SetOp := [.setUsername [0x75], .setPassword [0x70], .setWill w, .setCleanStart true,
                              .setUsername [], .setCleanStart false, .setKeepAlive 7]
     (Connect.new.applyAll ops).map (fun q => (q.flags, q.keepAlive)) = some (0x74, 7) := by decide
+
+/-- **the API these theorems are about is the one in /repo's source**: every exported `Set…`/`Add…`
+method of every packet type, translated statement by statement on every run
+(`Mq/Generated/Api.lean`), is the hand-written `apply` of `Mq/Ops.lean`, for every call -/
+theorem C12_api_from_source :
+    (∀ p op, Gen.Connect.api p op = p.apply op) ∧ (∀ p op, Gen.ConnAck.api p op = p.apply op)
+    ∧ (∀ p op, Gen.Publish.api p op = p.apply op) ∧ (∀ p op, Gen.PubAck.api p op = p.apply op)
+    ∧ (∀ p op, Gen.PubRec.api p op = p.apply op) ∧ (∀ p op, Gen.PubRel.api p op = p.apply op)
+    ∧ (∀ p op, Gen.PubComp.api p op = p.apply op) ∧ (∀ p op, Gen.Subscribe.api p op = p.apply op)
+    ∧ (∀ p op, Gen.SubAck.api p op = p.apply op) ∧ (∀ p op, Gen.Unsubscribe.api p op = p.apply op)
+    ∧ (∀ p op, Gen.UnsubAck.api p op = p.apply op) ∧ (∀ p op, Gen.Disconnect.api p op = p.apply op)
+    ∧ (∀ p op, Gen.Auth.api p op = p.apply op)
+    ∧ Gen.untranslatedSetters = [] ∧ Gen.unmodelledSetters = [] :=
+  ⟨Tie.Api.connect_api, Tie.Api.connAck_api, Tie.Api.publish_api, Tie.Api.pubAck_api, Tie.Api.pubRec_api,
+   Tie.Api.pubRel_api, Tie.Api.pubComp_api, Tie.Api.subscribe_api, Tie.Api.subAck_api, Tie.Api.unsubscribe_api,
+   Tie.Api.unsubAck_api, Tie.Api.disconnect_api, Tie.Api.auth_api, Tie.Api.complete.1, Tie.Api.complete.2⟩
 
 end Mq
